@@ -25,6 +25,20 @@ type Tape struct {
 	Seed    int64 // of a search tape
 	rng     *rand.Rand
 	Diverge int // replay values that were out of range (clamped by modulo)
+	// ForkSeed, if set on a search tape, re-seeds the choices at the moment the
+	// first planned fault fires: runs that share Seed follow the same schedule
+	// up to the fault and explore different ones after it
+	ForkSeed int64
+	forked   bool
+}
+
+func (t *Tape) fork() bool {
+	if t == nil || t.replay || t.ForkSeed == 0 || t.forked {
+		return false
+	}
+	t.forked = true
+	t.rng = rand.New(rand.NewSource(t.ForkSeed))
+	return true
 }
 
 func NewSearchTape(seed int64) *Tape { return &Tape{Seed: seed, rng: rand.New(rand.NewSource(seed))} }
@@ -65,6 +79,11 @@ type Stats struct {
 	Probes     map[string]int `json:"probes"`
 	Selects    int            `json:"select_choices"`
 	HitCap     bool           `json:"hit_step_cap"`
+	// per call: the scheduler step at which its handler returned and the step at
+	// which its client side finished (0 = did not happen): between the two the
+	// result of the call is on its way to the caller
+	HReturnStep []int `json:"hreturn_step,omitempty"`
+	CEndStep    []int `json:"cend_step,omitempty"`
 }
 
 type rpcState struct {
@@ -378,6 +397,9 @@ func (s *Sim) endCtx(rs *rpcState, cause string) {
 }
 
 func (s *Sim) fire(f Fault) {
+	if s.tape.fork() {
+		s.polRng = rand.New(rand.NewSource(s.tape.ForkSeed ^ 0x2545F491))
+	}
 	var rs *rpcState
 	if f.RPC >= 0 && f.RPC < len(s.rpcs) {
 		rs = s.rpcs[f.RPC]
